@@ -252,10 +252,21 @@ func stubPathJoin(p *path, _ *frame, a []value) value {
 
 func stubSprintf(p *path, _ *frame, args []value) value {
 	f := args[0].(Str)
-	if !f.IsConcrete() {
-		p.unsupported("fmt.Sprintf with a symbolic format")
+	format := ""
+	if f.IsConcrete() {
+		format = f.Concrete()
+	} else {
+		// a format with symbolic bytes (text spliced into a format string): each symbolic byte is either
+		// a '%' (fork; the byte is then fixed) or a literal byte, which travels as a sentinel
+		g := Str{b: append([]*Term{}, f.b...)}
+		for i, b := range g.b {
+			if !b.IsConst() && p.branch(p.tc.Eq(b, p.byteConst('%'))) {
+				g.b[i] = p.byteConst('%')
+			}
+		}
+		p.note("fmt.Sprintf with symbolic bytes in its format: a symbolic byte is '%' (explored) or a literal")
+		format = p.sentinelize(g, false)
 	}
-	format := f.Concrete()
 	quote := strings.Contains(format, "%q") || strings.Contains(format, "%#v")
 	var hargs []interface{}
 	var list []value
